@@ -6,6 +6,7 @@ import (
 	"fmt"
 	"io"
 	"strings"
+	"time"
 
 	"github.com/skycoin/skycoin/src/daemon/gnet"
 
@@ -94,6 +95,13 @@ func classify(name string, err error) string {
 	}
 	msg := err.Error()
 	switch base {
+	case "SendPings":
+		if err == gnet.ErrWriteQueueFull {
+			return "documented:write-queue-full"
+		}
+		if strings.HasPrefix(msg, "Tried to send") && strings.HasSuffix(msg, "but we are not connected") {
+			return "documented:not-connected"
+		}
 	case "SendMessage":
 		if err == gnet.ErrWriteQueueFull {
 			return "documented:write-queue-full"
@@ -446,6 +454,44 @@ var harnesses = []harness{
 			call(o, "SendMessage", func() error { return e.pool.SendMessage(peerA, &pingMsg{X: 1}) })
 		})
 		e.thread("Shutdown", e.shutdown)
+		e.finish(false)
+	}},
+	{Name: "S12", Desc: "peer that has stopped reading, write queue full: SendPings || Size || Shutdown", Overlap: []string{"SendPings"}, Body: func(o *obs) {
+		e := newEnv(o, false)
+		e.run()
+		vnet.SetPipeLimit(8) // one 12-byte message fits, the second Write stalls
+		var release vsync.WaitGroup
+		vsync.Init(&release, "release")
+		release.Add(1)
+		e.background("stalled-peer", func() {
+			c, err := vnet.DialFrom(peerA, poolAddr)
+			if err != nil {
+				panic(err)
+			}
+			release.Wait() // never reads
+			c.Close()
+		})
+		vsched.Quiesce()
+		// fill up: message 1 is written, message 2 stalls the send loop in Write, messages 3 and 4 fill the queue of 2
+		for i := 0; i < 6; i++ {
+			err := e.pool.SendMessage(peerA, &pingMsg{X: uint32(i)})
+			vsched.Quiesce()
+			if err == gnet.ErrWriteQueueFull {
+				o.count("setup:queue-full")
+				break
+			}
+		}
+		vsched.StartExploring()
+		e.thread("SendPings", func() {
+			// a negative rate: every connection counts as idle long enough
+			call(o, "SendPings", func() error { return e.pool.SendPings(-time.Hour, &pingMsg{X: 99}) })
+		})
+		e.thread("Size", func() {
+			call(o, "Size", func() error { _, err := e.pool.Size(); return err })
+		})
+		e.thread("Shutdown", e.shutdown)
+		e.wg.Wait()
+		release.Done()
 		e.finish(false)
 	}},
 	{Name: "S10", Desc: "outgoing Connect to a default peer || IsMaxOutgoingDefaultConnectionsReached, Disconnect of that peer (then Shutdown)", Overlap2: [2]string{"Connect", "Disconnect"}, Body: func(o *obs) {
